@@ -552,7 +552,11 @@ func (fc *FnCtx) backEdge(li *LoopInfo, cond Term, phis map[*ssa.Phi]Term) {
 		fc.assign(fc.phiVar(phi), v)
 	}
 	for k, t := range fc.autoInvariants(li, fc.env) {
-		fc.assert("inv", fmt.Sprintf("%s:%s.auto#%d.preserved", fc.name, lname, k+1), t, "automatic range-loop invariant", li.MinPos, true)
+		name := fmt.Sprintf("%s:%s.auto#%d.preserved", fc.name, lname, k+1)
+		if len(li.BackPreds) > 1 {
+			name += fmt.Sprintf("@%s", save.Name)
+		}
+		fc.assert("inv", name, t, "automatic range-loop invariant", li.MinPos, true)
 	}
 	if li.Spec != nil {
 		sc := fc.loopScope(li, fc.env)
